@@ -256,8 +256,8 @@ def deleg_order(repo: Repo) -> List[Ob]:
                 key = f"{m}#{k}"
                 (obs.append(ok("DELEG-ORDER", fi, key, props, x, f"`*{va}` is passed on unchanged")) if good else
                  obs.append(bad("DELEG-ORDER", fi, key, props, x, f"`{src(x)[:60]}` does not pass the requested subsystems `*{va}` on in the order given")))
-    if n < 7:
-        raise AnalysisError(f"DELEG-ORDER: {n} delegation sites (floor 7)")
+    if n < len(table):
+        raise AnalysisError(f"DELEG-ORDER: {n} delegation sites (floor: one per container method)")
     return obs
 
 
